@@ -103,6 +103,29 @@ pub fn run(ctx: &mut Ctx) {
                 ctx.eval();
             }
         }
+        // the required list in another order than the message (reversed, rotated), every type present
+        if present.len() >= 2 {
+            let mut rev = present.clone();
+            rev.reverse();
+            let mut rot = present.clone();
+            rot.rotate_left(1);
+            let msg_order_rev: Vec<u16> = exposed_ref.iter().rev().copied().collect();
+            for req in [rev, rot, msg_order_rev] {
+                check_policing(ctx, &buf, &msg, &rp, &exposed_ref, &present, &req, &o);
+                ctx.eval();
+                ctx.count("required-in-another-order");
+            }
+        }
+        // policing is a function of its arguments: a call that panicked on this thread just before
+        // (the documented panic for a non-request with an unknown attribute) leaves nothing behind
+        if done % 4 == 0 {
+            let ind = crate::refimpl::parse::encode(1, 1, &[3; 12], &[crate::refimpl::parse::Tlv::new(0x7f66, vec![1]), crate::refimpl::parse::Tlv::new(0x7f67, vec![])]);
+            let _ = guard(|| Message::from_bytes(&ind).map(|m| Message::check_attribute_types(&m, &[], &[]).map(|b| b.build())));
+            ctx.count("policing-after-a-panicking-call");
+            check_policing(ctx, &buf, &msg, &rp, &exposed_ref, &present, &[], &o);
+            check_policing(ctx, &buf, &msg, &rp, &exposed_ref, &[], &[0x7f77], &o);
+            ctx.eval();
+        }
         // duplicates in the lists themselves, and MI / FP named explicitly
         for (sup, req) in [
             (vec![], vec![]),
@@ -175,6 +198,8 @@ pub fn run(ctx: &mut Ctx) {
         }
     }
     ctx.require("requests-with-many-types", 200);
+    ctx.require("required-in-another-order", 1_000);
+    ctx.require("policing-after-a-panicking-call", 100);
     ctx.require("police-420", 5_000);
     ctx.require("police-400", 5_000);
     ctx.require("police-none", 1_000);
